@@ -454,4 +454,280 @@ theorem inv_addPhotonAbsorption (np ne : Nat) (T0 : PSet) (s s' : St) (photon : 
               simp only [List.mem_filter, List.mem_range, decide_eq_true_eq] at hi
               exact ⟨hi.1.1, Ne.symm hi.2⟩
 
+/-! ### the final disentangling of the emitters (`_add_gates_from_str`) -/
+
+/-- `_add_one_qubit_gate(list)` then a tableau gate whose row map is undone by the list -/
+theorem inv_wrap_then_gate (np ne : Nat) (T0 : PSet) (s a1 : St) (gs : List Gen) (q : Nat) (G : Gate)
+    (h : Inv np ne T0 s) (hq : q < np + ne) (hG : G.WF (np + ne)) (hundo : ∀ a, EqOn (np + ne) (actW q gs (G.act a)) a)
+    (ha : addOneQubit s gs q = .ok a1) : Inv np ne T0 (a1.gate G) := by
+  obtain ⟨et, enp, ene⟩ := addOneQubit_t s a1 gs q ha
+  have hGn : G.WF a1.t.n := by rw [et, h.n_eq]; exact hG
+  refine ⟨enp.trans h.np_eq, ene.trans h.ne_eq, by show a1.t.n = _; rw [et]; exact h.n_eq, gate_good a1 G hGn (et ▸ h.good), ?_⟩
+  show GGen np ne T0 a1.circ (a1.gate G).t.Spn
+  rw [gate_spn a1 G hGn, et, h.n_eq]
+  have hcl : Closed (np + ne) s.t.Spn := h.n_eq ▸ spn_closed s.t
+  apply addOneQubit_ggen np ne T0 s a1 gs q h.np_eq hq ha _ (img_closed _ _ (gmap_gate _ G hG) _ hcl)
+  rw [img_cancel _ _ _ (actW_isAut _ q hq gs) hundo _ hcl]
+  exact h.gen
+
+theorem undo_H (n q : Nat) (a : PRow) : EqOn n (actW q [Gen.H] ((Gate.H q).act a)) a := by
+  show EqOn n (actW q [Gen.H] (PRow.h q a)) a
+  rw [h_eq_lift]; exact table_undo n q _ tH tbl_H a
+theorem undo_P (n q : Nat) (a : PRow) : EqOn n (actW q [Gen.Z, Gen.P] ((Gate.P q).act a)) a := by
+  show EqOn n (actW q [Gen.Z, Gen.P] (PRow.s q a)) a
+  rw [s_eq_lift]; exact table_undo n q _ tS tbl_ZP a
+theorem undo_X (n q : Nat) (a : PRow) : EqOn n (actW q [Gen.X] ((Gate.X q).act a)) a := by
+  show EqOn n (actW q [Gen.X] (PRow.xg q a)) a
+  rw [xg_eq_lift]; exact table_undo n q _ tX tbl_X a
+
+/-- the body of the loop of `_add_gates_from_str` -/
+def gateStep (acc : St) (g : Gate) : Except Err St :=
+  match g with
+  | .H q => (addOneQubit acc [.H] q).map fun (a : St) => a.gate (.H q)
+  | .P q => (addOneQubit acc [.Z, .P] q).map fun (a : St) => a.gate (.P q)
+  | .X q => (addOneQubit acc [.X] q).map fun (a : St) => a.gate (.X q)
+  | .CNOT c t => if acc.np ≤ c ∧ acc.np ≤ t then .ok (addEmitterCnot acc (c - acc.np) (t - acc.np)) else .error .key
+  | .CZ c t =>
+    if acc.np ≤ c ∧ acc.np ≤ t then
+      match addOneQubit acc [.H] t with
+      | .error e => .error e
+      | .ok a1 =>
+        let a2 := addEmitterCnot (a1.gate (.H t)) (c - acc.np) (t - acc.np)
+        (addOneQubit a2 [.H] t).map fun (a : St) => a.gate (.H t)
+    else .error .key
+  | _ => .error .value
+
+theorem addGatesFromStr_eq (s : St) (gl : List Gate) : addGatesFromStr s gl = gl.foldlM gateStep s := rfl
+
+/-- one gate of the inverse-circuit list -/
+theorem inv_gateFromStr (np ne : Nat) (T0 : PSet) (acc a' : St) (g : Gate) (h : Inv np ne T0 acc) (hg : g.WF (np + ne))
+    (ha : gateStep acc g = .ok a') : Inv np ne T0 a' := by
+  unfold gateStep at ha
+  cases g with
+  | H q =>
+    simp only at ha
+    cases h1 : addOneQubit acc [.H] q with
+    | error e => rw [h1] at ha; simp [Except.map] at ha
+    | ok a1 =>
+      rw [h1] at ha; simp only [Except.map] at ha
+      injection ha with ha; rw [← ha]
+      exact inv_wrap_then_gate np ne T0 acc a1 _ q (.H q) h hg hg (undo_H _ q) h1
+  | P q =>
+    simp only at ha
+    cases h1 : addOneQubit acc [.Z, .P] q with
+    | error e => rw [h1] at ha; simp [Except.map] at ha
+    | ok a1 =>
+      rw [h1] at ha; simp only [Except.map] at ha
+      injection ha with ha; rw [← ha]
+      exact inv_wrap_then_gate np ne T0 acc a1 _ q (.P q) h hg hg (undo_P _ q) h1
+  | X q =>
+    simp only at ha
+    cases h1 : addOneQubit acc [.X] q with
+    | error e => rw [h1] at ha; simp [Except.map] at ha
+    | ok a1 =>
+      rw [h1] at ha; simp only [Except.map] at ha
+      injection ha with ha; rw [← ha]
+      exact inv_wrap_then_gate np ne T0 acc a1 _ q (.X q) h hg hg (undo_X _ q) h1
+  | CNOT c t =>
+    simp only at ha
+    obtain ⟨hc, ht, hct⟩ : c < np + ne ∧ t < np + ne ∧ c ≠ t := hg
+    split at ha
+    · next hb =>
+      injection ha with ha; rw [← ha]
+      rw [h.np_eq] at hb ⊢
+      exact inv_addEmitterCnot np ne T0 acc _ _ h (by omega) (by omega) (by omega)
+    · cases ha
+  | CZ c t =>
+    simp only at ha
+    obtain ⟨hc, ht, hct⟩ : c < np + ne ∧ t < np + ne ∧ c ≠ t := hg
+    split at ha
+    · next hb =>
+      cases h1 : addOneQubit acc [.H] t with
+      | error e => rw [h1] at ha; cases ha
+      | ok a1 =>
+        rw [h1] at ha; simp only at ha
+        have j1 := inv_wrap_then_gate np ne T0 acc a1 _ t (.H t) h ht ht (undo_H _ t) h1
+        rw [h.np_eq] at hb ha
+        have j2 := inv_addEmitterCnot np ne T0 (a1.gate (.H t)) (c - np) (t - np) j1 (by omega) (by omega) (by omega)
+        cases h2 : addOneQubit (addEmitterCnot (a1.gate (.H t)) (c - np) (t - np)) [.H] t with
+        | error e => rw [h2] at ha; simp [Except.map] at ha
+        | ok a3 =>
+          rw [h2] at ha; simp only [Except.map] at ha
+          injection ha with ha; rw [← ha]
+          exact inv_wrap_then_gate np ne T0 _ a3 _ t (.H t) j2 ht ht (undo_H _ t) h2
+    · cases ha
+  | Pdag q => simp at ha
+  | Y q => simp at ha
+  | Z q => simp at ha
+  | I q => simp at ha
+
+theorem inv_addGatesFromStr (np ne : Nat) (T0 : PSet) (s s' : St) (gl : List Gate) (h : Inv np ne T0 s)
+    (hgl : ∀ g, g ∈ gl → g.WF (np + ne)) (ha : addGatesFromStr s gl = .ok s') : Inv np ne T0 s' := by
+  rw [addGatesFromStr_eq] at ha
+  exact inv_foldlM np ne T0 gateStep (fun g => g.WF (np + ne)) (fun acc g a' hacc hg hstep => inv_gateFromStr np ne T0 acc a' g hacc hg hstep)
+    gl hgl s s' h ha
+
+/-! ### the photon loop and `solve` -/
+
+theorem inv_rref (np ne : Nat) (T0 : PSet) (s : St) (t1 : STab) (brs : List String) (h : Inv np ne T0 s)
+    (hr : s.t.rref = .ok (t1, brs)) : Inv np ne T0 { s with t := t1 } := by
+  obtain ⟨se, g1⟩ := rref_spanEq s.t t1 brs h.good hr
+  exact inv_spanEq np ne T0 s t1 h se g1
+
+theorem inv_photonLoop (np ne : Nat) (T0 : PSet) (js : List Nat) (hjs : ∀ j, j ∈ js → 1 ≤ j ∧ j ≤ np) (s s' : St)
+    (h : Inv np ne T0 s) (ha : photonLoop s js = .ok s') : Inv np ne T0 s' := by
+  induction js generalizing s with
+  | nil => simp only [photonLoop] at ha; injection ha with ha; rw [← ha]; exact h
+  | cons j rest ih =>
+    have hj := hjs j List.mem_cons_self
+    simp only [photonLoop] at ha
+    cases h1 : s.t.rref with
+    | error e => rw [h1] at ha; cases ha
+    | ok v =>
+      obtain ⟨t1, brs⟩ := v
+      rw [h1] at ha; simp only at ha
+      cases h2 : t1.heightFuncList with
+      | error e => rw [h2] at ha; cases ha
+      | ok hl =>
+        rw [h2] at ha; simp only at ha
+        have i1 := inv_rref np ne T0 s t1 brs h h1
+        have hstep : ∀ s3, (if (0 :: hl).getD j 0 < (0 :: hl).getD (j - 1) 0 then
+              match timeReversedMeasurement { s with t := t1 } (j - 1) with
+              | .error e => Except.error e
+              | .ok s2 => match s2.t.rref with
+                | .error e => Except.error e
+                | .ok (t2, _) => Except.ok { s2 with t := t2 }
+            else Except.ok { s with t := t1 }) = Except.ok s3 → Inv np ne T0 s3 := by
+          intro s3 hs3
+          split at hs3
+          · cases h3 : timeReversedMeasurement { s with t := t1 } (j - 1) with
+            | error e => rw [h3] at hs3; cases hs3
+            | ok s2 =>
+              rw [h3] at hs3; simp only at hs3
+              have i2 := inv_timeReversedMeasurement np ne T0 _ s2 (j - 1) i1 (by omega) h3
+              cases h4 : s2.t.rref with
+              | error e => rw [h4] at hs3; cases hs3
+              | ok w =>
+                obtain ⟨t2, b2⟩ := w
+                rw [h4] at hs3; simp only at hs3
+                injection hs3 with hs3; rw [← hs3]
+                exact inv_rref np ne T0 s2 t2 b2 i2 h4
+          · injection hs3 with hs3; rw [← hs3]; exact i1
+        generalize hst : (if (0 :: hl).getD j 0 < (0 :: hl).getD (j - 1) 0 then
+              match timeReversedMeasurement { s with t := t1 } (j - 1) with
+              | .error e => Except.error e
+              | .ok s2 => match s2.t.rref with
+                | .error e => Except.error e
+                | .ok (t2, _) => Except.ok { s2 with t := t2 }
+            else Except.ok { s with t := t1 }) = step at ha hstep
+        cases step with
+        | error e => cases ha
+        | ok s3 =>
+          simp only at ha
+          have i3 := hstep s3 rfl
+          cases h5 : addPhotonAbsorption s3 (j - 1) with
+          | error e => rw [h5] at ha; cases ha
+          | ok s4 =>
+            rw [h5] at ha; simp only at ha
+            have i4 := inv_addPhotonAbsorption np ne T0 s3 s4 (j - 1) i3 (by omega) h5
+            exact ih (fun j' hj' => hjs j' (List.mem_cons_of_mem _ hj')) s4 i4 ha
+
+/-- the target with `ne` emitter qubits in |0⟩ appended: the tableau `solve` starts from -/
+def withEmitters (target : STab) (ne : Nat) : STab :=
+  (List.range ne).foldl (fun (acc : STab) _ => (acc.insertQubit acc.n).norm) target
+
+theorem insertQubit_good (t : STab) (hg : t.Good) : (t.insertQubit t.n).Good := by
+  have row_lt : ∀ i, i < t.n → (t.insertQubit t.n).row i = (t.row i).insertCol t.n := by
+    intro i hi; simp [STab.insertQubit, hi]
+  have row_n : (t.insertQubit t.n).row t.n = Zq t.n := by simp [STab.insertQubit]
+  constructor
+  · intro i hi
+    have hi' : i < t.n + 1 := hi
+    by_cases e : i < t.n
+    · rw [row_lt i e]; exact hg.real i e
+    · have : i = t.n := by omega
+      rw [this, row_n]; rfl
+  · intro i k hi hk
+    have hi' : i < t.n + 1 := hi
+    have hk' : k < t.n + 1 := hk
+    show sp (t.n + 1) _ _ = false
+    by_cases e1 : i < t.n <;> by_cases e2 : k < t.n
+    · rw [row_lt i e1, row_lt k e2, sp_insertCol _ _ (Nat.le_refl _)]; exact hg.comm i k e1 e2
+    · have : k = t.n := by omega
+      rw [this, row_lt i e1, row_n]; exact sp_insertCol_Zq _ _ (Nat.le_refl _) _
+    · have : i = t.n := by omega
+      rw [this, row_lt k e2, row_n, sp_comm]; exact sp_insertCol_Zq _ _ (Nat.le_refl _) _
+    · have h1 : i = t.n := by omega
+      have h2 : k = t.n := by omega
+      rw [h1, h2]; exact sp_self _ _
+
+theorem withEmitters_good (target : STab) (hg : target.Good) (ne : Nat) :
+    (withEmitters target ne).Good ∧ (withEmitters target ne).n = target.n + ne := by
+  unfold withEmitters
+  induction ne with
+  | zero => exact ⟨hg, rfl⟩
+  | succ k ih =>
+    rw [List.range_succ, List.foldl_append]
+    simp only [List.foldl]
+    refine ⟨norm_good _ (insertQubit_good _ ih.1), ?_⟩
+    have hn1 : ∀ t : STab, ((t.insertQubit t.n).norm).n = t.n + 1 := fun _ => rfl
+    rw [hn1, ih.2]; omega
+
+/-- **the invariant holds for what `solve` returns**: with `np = target.n` photons and `ne = s.ne` emitters, the recorded circuit run
+    forwards from the group of the final working tableau generates exactly the group of `target ⊗ |0…0⟩` -/
+theorem solve_inv (target : STab) (hg : target.Good) (s : St) (h : solve target = .ok s) :
+    Inv target.n s.ne (withEmitters target s.ne).Spn s := by
+  have hne := solve_emitter_count target s h
+  unfold solve at h
+  cases h0 : determineNEmitters target with
+  | error e => rw [h0] at h; cases h
+  | ok ne =>
+    rw [h0] at h hne; simp only at h
+    have ene : s.ne = ne := by injection hne with hne; exact hne.symm
+    rw [ene]
+    obtain ⟨g0, n0⟩ := withEmitters_good target hg ne
+    have i0 : Inv target.n ne (withEmitters target ne).Spn { np := target.n, ne := ne, t := withEmitters target ne, circ := [] } :=
+      ⟨rfl, rfl, n0, g0, rfl⟩
+    have e0 : (List.range ne).foldl (fun (acc : STab) _ => (acc.insertQubit acc.n).norm) target = withEmitters target ne := rfl
+    rw [e0] at h
+    cases h1 : photonLoop { np := target.n, ne := ne, t := withEmitters target ne, circ := [] } ((List.range target.n).reverse.map (· + 1)) with
+    | error e => rw [h1] at h; cases h
+    | ok s1 =>
+      rw [h1] at h; simp only at h
+      have i1 := inv_photonLoop target.n ne _ _ (by
+        intro j hj
+        simp only [List.mem_map, List.mem_reverse, List.mem_range] at hj
+        obtain ⟨a, ha, e⟩ := hj
+        omega) _ s1 i0 h1
+      cases h2 : s1.t.rref with
+      | error e => rw [h2] at h; cases h
+      | ok v =>
+        obtain ⟨t2, b⟩ := v
+        rw [h2] at h; simp only at h
+        have i2 := inv_rref _ _ _ s1 t2 b i1 h2
+        split at h
+        · cases h
+        · cases h3 : t2.inverseCircuit with
+          | error e => rw [h3] at h; cases h
+          | ok w =>
+            obtain ⟨tz, inv⟩ := w
+            rw [h3] at h; simp only at h
+            obtain ⟨_, _, hwf, _, _⟩ := inverseCircuit_tracks t2 tz inv i2.good h3
+            have hn2 : t2.n = target.n + ne := i2.n_eq
+            cases h4 : addGatesFromStr { s1 with t := t2 } inv with
+            | error e => rw [h4] at h; cases h
+            | ok s3 =>
+              rw [h4] at h; simp only at h
+              have i3 := inv_addGatesFromStr _ _ _ _ s3 inv i2 (fun g hgm => hn2 ▸ hwf g hgm) h4
+              refine inv_foldlM _ _ _ _ (fun i => i < ne) ?_ _ (fun i hi => List.mem_range.mp hi) s3 s i3 h
+              intro acc i acc' hacc hi hstep
+              split at hstep
+              · have hq : target.n + i < target.n + ne := by omega
+                have hqn : target.n + i < acc.t.n := hacc.n_eq ▸ hq
+                refine inv_wrap _ _ _ acc (acc.gate (.X (target.n + i))) acc' _ (target.n + i) (PRow.xg (target.n + i)) hacc hq
+                  rfl rfl rfl rfl (gate_good acc (.X (target.n + i)) hqn hacc.good) ?_ ?_ hstep
+                · rw [gate_spn acc (.X (target.n + i)) hqn, hacc.n_eq]; rfl
+                · intro a; rw [xg_eq_lift]; exact table_undo _ _ _ tX tbl_X a
+              · injection hstep with hstep; rw [← hstep]; exact hacc
+
 end Graphiq.Solver
